@@ -118,16 +118,27 @@ func (a *Analysis) ruleT2T6() {
 				}
 				// entropy width seen by the encoder = hash input length
 				entLen := int64(-1)
+				what := "an unknown number of"
 				for _, c := range e.Calls {
 					if c.Callee == "invoke:hash.Write" || c.Callee == "crypto/sha256.Sum256" {
-						if b, ok := c.Args[0].(BytesV); ok && b.LenKnown && b.Len.Const() {
-							entLen = b.Len.A
+						if b, ok := c.Args[0].(BytesV); ok {
+							if b.Obj != nil {
+								if bc, ok := c.State[b.Obj].(BufC); ok {
+									b = bc.B
+								}
+							}
+							if b.LenKnown && b.Len.Const() {
+								entLen = b.Len.A
+								what = fmt.Sprint(entLen)
+							} else if b.Min {
+								what = "big.Int.Bytes() (leading zero bytes dropped, so a value-dependent number of)"
+							}
 						}
 					}
 				}
 				if wantL != 0 {
 					if entLen != wantL {
-						r.Bad("G4"+sfx, fk+"/entropy-bytes", pos, ctx.Name, "the encoder hashes %d bytes where BIP39 requires %d", entLen, wantL)
+						r.Bad("G4"+sfx, fk+"/entropy-bytes", pos, ctx.Name, "the encoder hashes %s bytes where BIP39 requires exactly %d", what, wantL)
 					} else {
 						r.OK("G4"+sfx, fk+"/entropy-bytes", pos, ctx.Name, "the checksum is taken over %d bytes", entLen)
 					}
